@@ -78,20 +78,22 @@ def build_cases(c):
     maxlen = 3 if c.tier == "quick" else 4
     starts = [0, 2, 100 + 8, 100 + 2, 100 + 1, 1]
     for ver in starts:
-        for n in range(0, maxlen + 1):
+        # thorough: length 4 from the two states with the richest behaviour, length 3 from the others
+        top = maxlen if (c.tier == "quick" or ver in (102, 1)) else 3
+        for n in range(0, top + 1):
             for word in itertools.product(LETTERS, repeat=n):
                 # every history begins with a poll so that answers can match
                 evs = [L.ev_timer(0, 4)] + [LETTERS[x]() for x in word]
                 cases.append({"min": 4, "max": 10, "nts": False, "ver": ver, "stash": [], "events": evs})
     c.cov["exhaustive_words"] = {"alphabet": len(LETTERS), "max_length": maxlen, "start_states": len(starts), "cases": len(cases)}
     # long walks: the 8-answer countdown, two-miss fallback, races between answers and timers
-    n = 150 if c.tier == "quick" else 3000
+    n = 150 if c.tier == "quick" else 1500
     for i in range(n):
         ver = rng.choice([108, 108, 108, 104, 102, 1, 0, 2])
         word = rng.choices(list(LETTERS), weights=[5, 2, 2, 6, 1, 4, 1, 1, 1, 1], k=rng.randint(6, 26))
         cases.append({"min": 4, "max": 10, "nts": False, "ver": ver, "stash": [],
                       "events": [L.ev_timer(0, 4)] + [LETTERS[x]() for x in word]})
-    for i in range(60 if c.tier == "quick" else 1000):
+    for i in range(60 if c.tier == "quick" else 500):
         case = L.random_case_header(rng)
         L.gen_history(rng, case, rng.randint(3, 12), weights={"wrongver": 4, "answer": 8, "silence": 5, "rate": 1})
         cases.append(case)
@@ -143,7 +145,7 @@ MANIFEST = {
     "note": "Trusted: Coq kernel+vm_compute; hand-written model; harness + drivers; decoded-packet level as for C08. 'Matching answer' "
             "includes valid kiss responses (as in the code). The NTS + V4UpgradingToV5 combination (never created by the daemon) is "
             "modelled as coded (it sends NTPv5 and expects NTPv4) and excluded from the NTS statements by nts_ver_ok. The tie includes "
-            "an exhaustive walk over all event words up to length 3 (quick) / 4 (thorough) from six version states. "
+            "an exhaustive walk over all event words up to length 3 from six version states (thorough: length 4 from Upgrading 2 and Upgraded). "
             "Print Assumptions: closed under the global context.",
     "design_ref": "DESIGN.md 3 C12",
 }
